@@ -7,6 +7,7 @@
 """utilities for analyzing expressions and blocks of Python
 code, as well as generating Python from AST nodes"""
 
+import _ast
 import re
 
 from mako import exceptions
@@ -67,13 +68,19 @@ class ArgumentList:
         self.declared_identifiers = set()
         self.undeclared_identifiers = set()
         if isinstance(code, str):
-            if re.match(r"\S", code) and not re.match(r",\s*$", code):
-                # if theres text and no trailing comma, insure its parsed
-                # as a tuple by adding a trailing comma
-                code += ","
+            # read the list as the inside of a list display, so that blanks
+            # and line breaks around the items, a trailing comma and
+            # comments mean what they mean in Python (appending "," to the
+            # text put the comma inside a trailing comment, and the filters
+            # were dropped without a word)
             expr = pyparser.parse(
-                code, "exec", lineno_offset=lineno_offset, **exception_kwargs
+                "[" + code + "\n]",
+                "exec",
+                lineno_offset=lineno_offset,
+                **exception_kwargs,
             )
+            if expr.body:
+                expr = _ast.Tuple(elts=expr.body[0].value.elts, ctx=_ast.Load())
         else:
             expr = code
 
